@@ -196,6 +196,7 @@ def np_norm(eng, args, kwargs):
         i = z3.Int(fresh_name("ni"))
         sq = sum((to_z3(Sym(z3.Select(c, i), M.kind), "real") * to_z3(Sym(z3.Select(c, i), M.kind), "real") for c in M.cols), z3.RealVal(0))
         eng.assume(z3.ForAll([i], z3.Implies(z3.And(i >= 0, i < M.nz()), z3.And(out.get(i).z >= 0, out.get(i).z * out.get(i).z == sq)), patterns=[out.get(i).z]))
+        out.norm_of = M  # ghost: the matrix whose row lengths these are (contracts name the components through it)
         return out
     prev = _PREV.get(np.linalg.norm)
     if prev is None:
